@@ -15,17 +15,33 @@ pub struct Evidence {
 
 impl Evidence {
     pub fn write(&self, verif: &Path) -> Result<(), String> {
+        // which tree this run exercised: evidence for another checkout (VERIF_REPO: seeded changes, controls, the
+        // pre-fix tree) never lands in <verif>/evidence, which describes /repo only
+        let repo = crate::ws::repo_root();
+        let git = |args: &[&str]| std::process::Command::new("git").arg("-C").arg(&repo).args(args).output().ok().filter(|o| o.status.success()).map(|o| String::from_utf8_lossy(&o.stdout).trim().to_owned());
+        let mut coverage = self.coverage.clone();
+        if let Some(map) = coverage.as_object_mut() {
+            map.insert(
+                "tree_under_test".into(),
+                json!({
+                    "path": repo.to_string_lossy(),
+                    "git_head": git(&["rev-parse", "HEAD"]),
+                    "modified_files": git(&["status", "--porcelain", "--untracked-files=no"]).map(|s| s.lines().map(|l| l.to_owned()).collect::<Vec<_>>()),
+                }),
+            );
+        }
+        let default_tree = std::env::var("VERIF_REPO").map(|v| v == "/repo").unwrap_or(true);
         let doc = json!({
             "property_id": self.property_id,
             "tier": self.tier,
             "seed": self.seed,
             "level": "exploration",
-            "coverage": self.coverage,
+            "coverage": coverage,
             "assumptions": self.assumptions,
             "wall_s": (self.wall_s * 100.0).round() / 100.0,
             "violations": self.violations,
         });
-        let dir = verif.join("evidence");
+        let dir = if default_tree { verif.join("evidence") } else { crate::ws::build_root(verif).join("evidence-other-trees") };
         std::fs::create_dir_all(&dir).map_err(|e| e.to_string())?;
         let path = dir.join(format!("{}.json", self.property_id));
         let tmp = dir.join(format!(".{}.json.tmp", self.property_id));
